@@ -8,7 +8,7 @@ two binary searches.
 """
 import re
 
-from gsa.cfg import Fn, S, is_call, walk, lit
+from gsa.cfg import Fn, S, SN, canon, is_call, walk, lit
 from gsa import rules as R
 from gsa.layout import Interp, Poly
 
@@ -227,40 +227,141 @@ def ceil_blocks(ctx, fx):
                fn.loc(), "blockSize", fnkey=f["key"])
 
 
+def tpoly(t, alias=None):
+    """expression tree -> polynomial over the names it mentions (None when it is not +,-,* of names and integers)"""
+    alias = alias or {}
+    if not isinstance(t, dict):
+        return None
+    k = t.get("k")
+    if k == "int":
+        return Poly.const(t["v"])
+    if k in ("cast", "paren"):
+        return tpoly(t["e"], alias)
+    if k in ("ref", "mem"):
+        n = S(t)
+        return Poly.sym(alias.get(n, n))
+    if k == "bin" and t["op"] in ("+", "-", "*"):
+        x, y = tpoly(t["l"], alias), tpoly(t["r"], alias)
+        if x is None or y is None:
+            return None
+        return x + y if t["op"] == "+" else x - y if t["op"] == "-" else x * y
+    return None
+
+
+SEARCH = {}          # function key -> names found by shape (lb, ub, mid, weight, target, prefix)
+
+
+def search_shape(fn, f):
+    """Lower-bound search recognised by what the code does, not by what its locals are called. Returns (names, problems)."""
+    det = []
+    nm = {}
+    sc = lambda t: t
+    def unc(t):
+        while isinstance(t, dict) and t.get("k") in ("cast", "paren"):
+            t = t["e"]
+        return t
+    loops = [b for b in fn.blocks.values() if (b.get("term") or {}).get("cls") in ("WhileStmt", "ForStmt") and b["term"].get("cond")]
+    lu = None
+    for b in loops:
+        c = canon(lit(b["term"]["cond"])[0])
+        c = unc(c)
+        if isinstance(c, dict) and c.get("k") == "bin" and c.get("op") == "<" and unc(c["l"]).get("k") == "ref" and unc(c["r"]).get("k") == "ref":
+            lu = (unc(c["l"])["n"], unc(c["r"])["n"])
+    if len(loops) != 1 or lu is None:
+        return None, ["loop is not while (lower < upper)"]
+    L, U = lu
+    nm["lb"], nm["ub"] = L, U
+    # updates: lower = mid + 1, upper = mid
+    M = None
+    for _, e in fn.events(lambda e: e.get("k") == "assign" and e.get("lp") in (L, U)):
+        r = unc(e.get("rhs"))
+        if e["lp"] == U:
+            if e.get("op") == "=" and isinstance(r, dict) and r.get("k") == "ref" and M in (None, r["n"]):
+                M = r["n"]
+            else:
+                det.append("upper bound updated by %s %s" % (e.get("op"), e.get("rp")))
+    if M is None:
+        return None, det + ["upper bound is never set to the probe"]
+    nm["mid"] = M
+    nL = 0
+    for _, e in fn.events(lambda e: e.get("k") == "assign" and e.get("lp") == L):
+        nL += 1
+        pl = tpoly(e.get("rhs"))
+        if e.get("op") != "=" or pl is None or pl != Poly.sym(M) + Poly.const(1):
+            det.append("lower bound updated by %s %s, expected probe + 1" % (e.get("op"), e.get("rp")))
+    if not nL:
+        det.append("lower bound never moves")
+    li = local_inits(fn)
+    mi = li.get(M) or []
+    forms = ("(%s + ((%s - %s) / 2))" % (L, U, L), "(((%s - %s) / 2) + %s)" % (U, L, L), "(%s + ((%s - %s) >> 1))" % (L, U, L))
+    if len(mi) != 1 or S(mi[0]) not in forms:
+        det.append("probe = %s, expected lower + (upper - lower) / 2" % (S(mi[0]) if mi else None))
+    # the comparison that steers the search: weight(probe) against the target parameter
+    params = {p["n"] for p in f["params"]}
+    W = T = None
+    for bid in fn.blocks:
+        br = fn.branch(bid)
+        if not br:
+            continue
+        c = unc(canon(br[0]))
+        if isinstance(c, dict) and c.get("k") == "bin" and c.get("op") in ("<", "<="):
+            l, r = unc(c["l"]), unc(c["r"])
+            if isinstance(l, dict) and isinstance(r, dict) and l.get("k") == "ref" and r.get("k") == "ref":
+                for w, t in ((l["n"], r["n"]), (r["n"], l["n"])):
+                    if t in params and w in li and w not in (L, U, M):
+                        W, T = w, t
+    if W is None:
+        return nm, det + ["no comparison of a probed weight against a target parameter"]
+    nm["weight"], nm["target"] = W, T
+    lt = lambda t: SN(t) == "(%s < %s)" % (W, T)
+    ge = lambda t: SN(t) == "(%s <= %s)" % (T, W)
+    g_lt = fn.guard_edges(lt, True) | fn.guard_edges(ge, False)
+    g_ge = fn.guard_edges(lt, False) | fn.guard_edges(ge, True)
+    up_lb = lambda e: e.get("k") == "assign" and e.get("lp") == L
+    up_ub = lambda e: e.get("k") == "assign" and e.get("lp") == U
+    h1, _ = fn.search([fn.entry_state()], stop=up_lb, edge_ok=lambda b, i, s_: (b, i) not in g_lt)
+    h2, _ = fn.search([fn.entry_state()], stop=up_ub, edge_ok=lambda b, i, s_: (b, i) not in g_ge)
+    if h1 or h2:
+        det.append("branch direction: lower bound must move when weight < target, upper bound otherwise")
+    rets = {S(e.get("e")) for _, e in fn.events(lambda e: e["k"] == "ret")}
+    if rets != {L}:
+        det.append("returns %s" % sorted(rets))
+    # weight is monotone in the probe: (edges before the probe) * edge weight + probe * node weight, both weights parameters
+    declared = {e["n"] for _, e in fn.events(lambda e: e.get("k") == "decl")}
+    wi = li.get(W) or []
+    wp = tpoly(wi[0]) if len(wi) == 1 else None
+    ok = False
+    if wp is not None:
+        mons = list(wp.t.items())
+        if len(mons) == 2 and all(v == 1 and len(m) == 2 for m, v in mons):
+            withM = [m for m, _ in mons if M in m]
+            other = [m for m, _ in mons if M not in m]
+            if len(withM) == 1 and len(other) == 1:
+                y = [x for x in withM[0] if x != M]
+                px = [x for x in other[0] if x in declared and x not in (L, U, M)]
+                x = [x for x in other[0] if x in params]
+                if len(y) == 1 and y[0] in params and len(px) == 1 and len(x) == 1 and x[0] != y[0]:
+                    ok = True
+                    nm["prefix"], nm["edge_w"], nm["node_w"] = px[0], x[0], y[0]
+    if not ok:
+        det.append("weight = %s, expected (edges before the probe) * edge weight + probe * node weight" % (S(wi[0]) if wi else None))
+    return nm, det
+
+
 def binary_search(ctx, fx):
     ctx.rule("C13.search.lower-bound-shape",
              "findIndexPrefixSum / FileGraph::findIndex: while (lb < ub) { mid = lb + (ub - lb) / 2; if (weight(mid) < target) "
-             "lb = mid + 1; else ub = mid; } return lb -- the lower-bound search of a monotone predicate")
+             "lb = mid + 1; else ub = mid; } return lb -- the lower-bound search of a monotone predicate. The roles (bounds, "
+             "probe, weight, target) are found by shape: loop condition, the assignments to the bounds, the comparison against "
+             "a parameter; the weight is compared as a polynomial, the branch direction by guard edges under either spelling")
     fs = [f for f in fx.functions if f["qn"] in ("galois::graphs::internal::findIndexPrefixSum", "galois::graphs::FileGraph::findIndex")
           and f["kind"] != "pattern"]
     ctx.floor("binary search routines", len(fs), 2)
     for f in fs:
         fn = ctx.fn(f)
-        det = []
-        loops = [b for b in fn.blocks.values() if (b.get("term") or {}).get("cls") == "WhileStmt"]
-        if len(loops) != 1 or S(lit(loops[0]["term"]["cond"])[0]) != "(lb < ub)":
-            det.append("loop is not while (lb < ub)")
-        li = local_inits(fn)
-        if not li.get("mid") or S(li["mid"][0]) != "(lb + ((ub - lb) / 2))":
-            det.append("mid = %s" % (S(li["mid"][0]) if li.get("mid") else None))
-        asg = {(e["lp"], e.get("rp")) for _, e in fn.events(lambda e: e.get("k") == "assign" and e.get("lp") in ("lb", "ub"))}
-        if asg != {("lb", "mid + 1"), ("ub", "mid")}:
-            det.append("updates %s" % sorted(asg))
-        # lb = mid + 1 exactly when weight < target
-        tgt = [p["n"] for p in f["params"] if "target" in p["n"].lower()]
-        wv = "weight" if "weight" in li else "size"
-        lt = lambda t: S(t) == "(%s < %s)" % (wv, tgt[0] if tgt else "?")
-        up_lb = lambda e: e.get("k") == "assign" and e.get("lp") == "lb"
-        up_ub = lambda e: e.get("k") == "assign" and e.get("lp") == "ub"
-        if fn.guarded_positions(up_lb, lt, True) or fn.guarded_positions(up_ub, lt, False):
-            det.append("branch direction: lb must move when weight < target, ub otherwise")
-        rets = {S(e.get("e")) for _, e in fn.events(lambda e: e["k"] == "ret")}
-        if rets != {"lb"}:
-            det.append("returns %s" % sorted(rets))
-        # weight is monotone in mid: edges-before(mid) * edgeWeight + mid * nodeWeight
-        ws = S(li[wv][0]) if li.get(wv) else ""
-        if not re.fullmatch(r"\(\(num_edges \* \w+\) \+ \(mid \* \w+\)\)", ws):
-            det.append("weight = %s" % ws)
+        nm, det = search_shape(fn, f)
+        if nm:
+            SEARCH[f["key"]] = nm
         ctx.ob("C13.search.lower-bound-shape", f["qn"], not det, "; ".join(det), fn.loc(), "search", fnkey=f["key"])
 
 
@@ -331,8 +432,11 @@ def weighted(ctx, fx):
             sfn = ctx.fn(srch[0])
             sli = local_inits(sfn)
             # inside the search mid < ub = numNodes and the prefix sum is at most numEdges; the weight is monotone in both
-            it2 = Interp(sfn, {"num_edges": E, "mid": N - Poly.const(1), "nodeWeight": nw, "edgeWeight": ew})
-            wmax = it2.ev(sli["weight"][0], {}) if sli.get("weight") else None
+            nm = SEARCH.get(srch[0]["key"]) or search_shape(sfn, srch[0])[0] or {}
+            it2 = Interp(sfn, {nm.get("prefix", "num_edges"): E, nm.get("mid", "mid"): N - Poly.const(1),
+                               nm.get("node_w", "nodeWeight"): nw, nm.get("edge_w", "edgeWeight"): ew})
+            wn = nm.get("weight", "weight")
+            wmax = it2.ev(sli[wn][0], {}) if sli.get(wn) else None
             if wmax is not None and any(v < 0 for v in wmax.p.t.values() if True) and False:
                 wmax = None
         ubs = {S(c.get("a", [None] * 5)[4]) for c in calls}
